@@ -349,7 +349,10 @@ class ListNode(SequenceNode[Tuple[T, ...]], Generic[T]):
                     to_node=node
                 )
             else:
-                if self.all_children_are_leaves() and node.all_children_are_leaves():
+                if self.all_children_are_leaves() and node.all_children_are_leaves() and \
+                        all(child.total_size > 0 for child in self._children + node._children):
+                    # Leaves of size zero (null, the empty string) still need the penalty;
+                    # otherwise inserting or removing them would be free
                     insert_remove_penalty = 0
                 else:
                     insert_remove_penalty = 1
